@@ -263,7 +263,7 @@ variable (ns : NsMap)
 def icResult (frags : List Frag) (e : Event) (r : Nat × Nat × Nat × Option NodeTest) : Val :=
   if r.1 + 1 == frags.length && r.2.1 == r.2.2.1 then
     (match r.2.2.2 with
-     | some a => a.apply e ns
+     | some a => attrResult a e ns
      | none => .bool true)
   else .none
 
@@ -278,7 +278,7 @@ def boundOut (frags : List Frag) (e : Event) (f0 : Frag) (p : Nat) : PEntry × V
   else if p + 1 == f0.tests.length then
     if frags.length == 1 then
       (⟨none, false⟩, match f0.attr with
-        | some a => a.apply e ns
+        | some a => attrResult a e ns
         | none => .bool true)
     else if !((frags[1]?.map Frag.selfBeginning).getD false) then (⟨some (1, 0), true⟩, .none)
     else icOut ns frags e 1 0
@@ -1079,7 +1079,8 @@ theorem simpleSupports_normPath (frags : List Frag) (hok : FragsOk frags) : simp
   | cons s0 rest =>
     rw [hp] at hall
     simp only [simpleSupports, Bool.and_eq_true, List.all_eq_true, bne_iff_ne, ne_eq]
-    refine ⟨(hall s0 List.mem_cons_self).1, fun s hs => ?_⟩
+    refine ⟨⟨(hall s0 List.mem_cons_self).1, fun s hs => ?_⟩,
+      fun s hs => (hall s (List.dropLast_subset _ hs)).1⟩
     obtain ⟨_, h2, h3⟩ := hall s hs
     rcases simpleT_cases s.test h3 with ⟨n, h⟩ | h | h <;> simp [h2, h]
 
